@@ -22,7 +22,8 @@ RULE = ("parameter dictionaries of 1-7 entries over the supported value "
         "sets with 1-3 names x 1-4 Result objects of every type x accumulation "
         "x 0-10 updates, repetition counts; round trips: JSON string, JSON "
         "file, pickle file (templated / extension-less names), parameter "
-        "pickle file, Result to_json/to_dict.  Each loaded object is compared "
+        "pickle file, Result to_json/to_dict, plus the results objects produced by "
+        "real SimulationRunner runs.  Each loaded object is compared "
         "with the original by the classes' own == AND by an independent "
         "by-value canonical form, then saved and loaded again (idempotence).  "
         "Signature = (object kind, route, value kinds present, unpacked "
@@ -393,6 +394,38 @@ def case_filename(ctx, rng, idx):
     ctx.sig("filename", kind)
 
 
+def case_runner_results(ctx, rng, idx):
+    """The results object a real SimulationRunner run produces (it carries the
+    repetition limit and counts) through every route."""
+    from . import c05
+    spec = c05.gen_spec(rng)
+    if spec.skip_kind in ("first", "last"):
+        spec.skip_kind = "none"
+    tag = c05.spec_tag(spec)
+    runner = c05.ProbeRunner(spec)
+    okc, _ = ctx.call("results-roundtrip", runner.simulate, cls="runner:simulate-raised",
+                      detail=tag)
+    if not okc:
+        return
+    sr = runner.results
+    wd = core.workdir()
+    route = ["json-string", "json-file", "pickle-file"][idx % 3]
+
+    def canon_runner(x, strict=False):
+        return canon_results(x, strict) + (canon(getattr(x, "rep_max", None)),
+                                           canon(x.current_rep))
+
+    def save_load(x):
+        if route == "json-string":
+            return SimulationResults.from_json(x.to_json())
+        name = os.path.join(wd, "rr_%d.%s" % (idx, "json" if route == "json-file" else "pickle"))
+        return SimulationResults.load_from_file(x.save_to_file(name))
+    roundtrip(ctx, "results-roundtrip", sr, save_load, canon_runner, "runner:" + route, tag,
+              strict=(route == "pickle-file"))
+    ctx.sig("runner-results", route, len(spec.unpacked), spec.rep_max)
+    ctx.sample("runner-results", {**tag, "route": route})
+
+
 def classify(w):
     return None
 
@@ -402,6 +435,7 @@ GENS = {
     "result": Gen(case_result, 800, 80000),
     "results": Gen(case_results, 1000, 100000),
     "filename": Gen(case_filename, 100, 10000),
+    "runner-results": Gen(case_runner_results, 150, 15000),
 }
 MIN_EVALS = {"params-roundtrip": 5000, "result-roundtrip": 2000,
              "results-roundtrip": 2000, "idempotent": 4000, "file-name": 1000}
